@@ -28,6 +28,10 @@ class HarnessError(Exception):
 
 
 def _pip_target(pkgs: list[str]) -> None:
+    if os.path.realpath(sys.prefix) != os.path.realpath("/venv"):
+        # .deps holds packages for the repository's interpreter (/venv, cp312) only: a helper started under another python once filled it with
+        # wheels of its own ABI and broke every later run
+        raise HarnessError(f"refusing to install {pkgs} into {DEPS} from {sys.executable}: run the checks with /venv/bin/python")
     os.makedirs(DEPS, exist_ok=True)
     cmd = [PY, "-m", "pip", "install", "--quiet", "--no-index", "--find-links", WHEELS,
            "--target", DEPS, *pkgs]
